@@ -18,6 +18,9 @@ pub enum StepOut {
     /// the wrapped sink accepts the metric but reports `Ok(0)` (as `NopMetricSink` and
     /// deferring sinks do; the `MetricSink::emit` docs say this is not an error)
     OkZero,
+    /// the wrapped sink accepts the metric but reports a short, non-zero count
+    /// (`Ok(n)`, 0 < n < len): the sink's business, the metric must not be handed over again
+    OkShort,
     /// io::ErrorKind index
     Err(u8),
     Panic,
@@ -192,6 +195,7 @@ impl MetricSink for GatedSink {
         match outcome {
             StepOut::Ok => Ok(metric.len()),
             StepOut::OkZero => Ok(0),
+            StepOut::OkShort => Ok(if metric.len() >= 2 { (metric.len() / 2).max(1) } else { metric.len() }),
             StepOut::Err(k) => Err(util::token_error(k, seq as u64)),
             StepOut::Panic => panic!("{} (wrapped sink, metric #{})", HARNESS_PANIC, seq),
         }
